@@ -148,6 +148,12 @@ func WriteYAML(e *Env, p *spec.Program) string {
 		os.Remove(path)
 	case "malformed":
 		ioutil.WriteFile(path, []byte("types: [unclosed\n  - : :\n\t bad"), 0o644)
+	case "mistyped":
+		// well-formed YAML that does not decode into the configuration (a scalar where a list is expected)
+		ioutil.WriteFile(path, []byte("sort: true\nexclude_fields: not-a-list\nname_overrides: [a, b]\n"), 0o644)
+	case "directory":
+		os.Remove(path)
+		os.MkdirAll(path, 0o755)
 	default:
 		ioutil.WriteFile(path, []byte(doc.YAMLText(p.Delivery.Perm)), 0o644)
 	}
